@@ -168,8 +168,11 @@ def w_objects(arg):
     seed, idx, n = arg
     import pgpy
     rec = harness.Rec()
-    hdr = st.lists(st.tuples(st.sampled_from(HEADER_KEYS), st.text(alphabet=st.characters(min_codepoint=33, max_codepoint=126), min_size=1, max_size=40)
-                             .filter(lambda v: ': ' not in v)), max_size=3, unique_by=lambda kv: kv[0])
+    # values: any printable text incl. blanks inside and the separator sequence ': ' itself (RFC 4880 6.2: the FIRST colon-space ends the key);
+    # an empty value; a few fixed awkward ones
+    val = st.one_of(st.text(alphabet=st.characters(min_codepoint=32, max_codepoint=126), min_size=0, max_size=40).map(lambda v: v.strip()),
+                    st.sampled_from(['Re: your key', 'a: b: c', '', 'x' * 60, 'https://example.org/?a=1: 2', '=abcd', '-----']))
+    hdr = st.lists(st.tuples(st.sampled_from(HEADER_KEYS), val), max_size=3, unique_by=lambda kv: kv[0])
     strat = st.fixed_dictionaries({'i': st.integers(0, 10000), 'headers': hdr, 'form': st.sampled_from(['str', 'bytes', 'bytearray', 'crlf', 'surround'])})
 
     def body(c):
